@@ -45,6 +45,10 @@ func bad_index_after_reslice(b []byte) byte { c := b[:cap(b)]; _ = c; if len(b) 
 type sbuf struct{ b []byte }
 func ok_mem_phi(s *sbuf, n int) []byte { if n < 0 { return nil }; if cap(s.b) < n { s.b = make([]byte, n) }; return s.b[:n] }
 func bad_slice_mem_phi(s *sbuf, n int) []byte { if n < 1 { return nil }; if cap(s.b) < n-1 { s.b = make([]byte, n) }; return s.b[:n] }
+func ok_even_scan(b []byte) int { end := len(b) &^ 1; for end != 0 && b[end-2] == 0 { end -= 2 }; return end }
+func bad_index_odd_scan(b []byte) int { end := len(b); for end != 0 && b[end-2] == 0 { end -= 2 }; return end }
+func ok_window3(b []byte) [5]byte { var o [5]byte; if len(b) > 15 || len(b)%3 != 0 { return o }; for i := 0; len(b) != 0; i, b = i+1, b[3:] { o[i] = b[0] }; return o }
+func bad_index_window3(b []byte) [5]byte { var o [5]byte; if len(b) > 18 || len(b)%3 != 0 { return o }; for i := 0; len(b) != 0; i, b = i+1, b[3:] { o[i] = b[0] }; return o }
 func bad_div_zero(n, d int) int { return n / d }
 func ok_div(n, d int) int { if d <= 0 { return 0 }; return n / d }
 func bad_make_neg(n int) []byte { return make([]byte, n) }
